@@ -14,7 +14,9 @@ def build(tier, ctx):
     defs = pvcommon.scope_defs(ctx["repo"], n)
     # staged merges are block-structured like F; bunched forks with mixed
     # OR are outside C02's exactness claim and are not included
-    defs += pvcommon.extended_defs(0, staged=True, bunched=False)
+    defs += pvcommon.extended_defs(0, staged=True, bunched=False,
+                                   stretched=(4, 10) if tier == "quick"
+                                   else (5, 10))
     defs += pvcommon.skeleton_defs(tier)
     return [{"name": nm, "defn": dsl.to_list(d), "k": 2,
              "pres": ["canonical"], "mode": "c02"}
@@ -27,8 +29,9 @@ def collect(tier, tasks, results, ctx):
                {"runs": [], "jobs": 0, "states": 0, "transitions": 0}
                for r in results]
     bounds = {"tier": tier,
-              "definitions": "F_5 + 63 corpus" if tier == "quick"
-              else "F_7 + 63 corpus",
+              "definitions": ("F_5" if tier == "quick" else "F_7") +
+              " + 63 corpus + staged merges + kill-in-loop + lead-loop + "
+              "loop-on-break-path + skeletons (counts: tasks_per_family)",
               "input": "complete J_2(D), canonical presentation",
               "output_language": "every job of the emitted diagram with "
               "loops bounded at 2, cap %d jobs per definition"
